@@ -349,6 +349,68 @@ def unalias(fn, known_names, wanted=None):
     return removed
 
 
+def param_list(fn):
+    a = fn.args
+    out = [x.arg for x in getattr(a, 'posonlyargs', []) + a.args]
+    out.append('*' + a.vararg.arg if a.vararg else '*')
+    out += [x.arg for x in a.kwonlyargs]
+    out.append('**' + a.kwarg.arg if a.kwarg else '**')
+    return out
+
+
+def restore_params(tree, base):
+    """A private function whose parameters were renamed (same arity, same
+    kinds) gets its recorded parameter names back, in its body and in the
+    keyword arguments of calls by that name inside the module.  Public names
+    are left alone: renaming a public parameter changes the API."""
+    rec = base.get('__params__') or {}
+    count = 0
+    kw_maps = {}
+    for q, fn in outer_functions(tree):
+        want = rec.get(q)
+        short = q.rsplit('.', 1)[-1]
+        if want is None or not short.startswith('_') or \
+                short.startswith('__') and short.endswith('__'):
+            continue
+        cur = param_list(fn)
+        if len(cur) != len(want) or cur == want:
+            continue
+        if cur.index('*') != want.index('*') if (
+                '*' in cur and '*' in want) else False:
+            continue
+        mapping = {}
+        okay = True
+        for c, w in zip(cur, want):
+            if c.startswith('*') != w.startswith('*'):
+                okay = False
+                break
+            c2, w2 = c.lstrip('*'), w.lstrip('*')
+            if c2 and w2 and c2 != w2:
+                mapping[c2] = w2
+        if not okay or not mapping:
+            continue
+        used = {n.id for n in ast.walk(fn) if isinstance(n, ast.Name)}
+        if any(w in used and w not in mapping for w in mapping.values()):
+            continue
+        for a in ast.walk(fn):
+            if isinstance(a, ast.arg) and a.arg in mapping:
+                a.arg = mapping[a.arg]
+        _Rename(mapping).visit(fn)
+        kw_maps[short] = mapping
+        count += len(mapping)
+    if kw_maps:
+        for c in ast.walk(tree):
+            if isinstance(c, ast.Call):
+                nm = c.func.attr if isinstance(c.func, ast.Attribute) else (
+                    c.func.id if isinstance(c.func, ast.Name) else None)
+                m = kw_maps.get(nm)
+                if m:
+                    for k in c.keywords:
+                        if k.arg in m:
+                            k.arg = m[k.arg]
+    return count
+
+
 class _Rename(ast.NodeTransformer):
     def __init__(self, mapping):
         self.m = mapping
@@ -373,7 +435,7 @@ def normalise(tree, relpath):
     base = table().get(relpath)
     if not base:
         return 0
-    count = 0
+    count = restore_params(tree, base)
     for q, fn in outer_functions(tree):
         want = base.get(q)
         if want is None and q in (base.get('__functions__') or ()):
